@@ -138,6 +138,16 @@ impl NameMap {
             name_vec.push(NameSymbol::Function(id));
         }
 
+        // Enumerators keep their names and are visible in the scope of their enum
+        // Find all of their names so we do not generate a name into one of them
+        let mut all_enum_value_names = HashSet::new();
+        for i in 0..module.enum_registry.get_enum_count() {
+            for value_id in module.enum_registry.get_values(EnumId(i)) {
+                let name = &module.enum_registry.get_enum_value(*value_id).name.node;
+                all_enum_value_names.insert(name.clone());
+            }
+        }
+
         // Create set of reserved names to use as base for each scopes used names list
         // Reserved names are reserved in all scopes
         let mut reserved_name_set = HashSet::new();
@@ -168,6 +178,11 @@ impl NameMap {
                         // Attempt to assign a name with an incrementing index
                         let mut counter = 0;
                         loop {
+                            // Skip the indices that would generate the name of an enumerator
+                            while all_enum_value_names.contains(&format!("{}_{}", name, counter)) {
+                                counter += 1;
+                            }
+
                             #[cfg(feature = "verif-hooks")]
                             rssl_text::verif::tick(19);
                             let candidate = format!("{}_{}", name, counter);
